@@ -21,6 +21,7 @@ type c19Origin struct {
 	ln   net.Listener
 	srv  *http.Server
 	up   bool
+	sick bool // listening, but answers 500 to everything (fails an HTTP health check, passes a TCP one)
 }
 
 func (o *c19Origin) start() error {
@@ -33,6 +34,11 @@ func (o *c19Origin) start() error {
 	idx := o.idx
 	o.srv = &http.Server{Handler: http.HandlerFunc(func(w http.ResponseWriter, r *http.Request) {
 		w.Header().Set("Cache-Control", "no-cache")
+		if o.sick {
+			w.WriteHeader(500)
+			fmt.Fprintf(w, "sick-%d", idx)
+			return
+		}
 		fmt.Fprintf(w, "origin-%d", idx)
 	})}
 	go o.srv.Serve(ln)
@@ -56,12 +62,29 @@ type c19Sys struct {
 	e       *env.Env
 	label   string
 	shard   int
+	reloads bool
+	cfg     *config.PikeConfig
+	mask    int
 }
 
-func (s *c19Sys) NumEvents() int      { return s.n }
-func (s *c19Sys) Enabled(ev int) bool { return true }
+func (s *c19Sys) NumEvents() int { return 3 * s.n }
+func (s *c19Sys) Enabled(ev int) bool {
+	if ev >= s.n && ev < 2*s.n {
+		return s.ping != "" && s.origins[ev-s.n].up // HTTP-level sickness is only observable by an HTTP health check
+	}
+	if ev >= 2*s.n {
+		return s.reloads
+	}
+	return true
+}
 func (s *c19Sys) EventName(ev int) string {
-	return fmt.Sprintf("toggle server %d", ev)
+	switch {
+	case ev < s.n:
+		return fmt.Sprintf("toggle server %d up/down", ev)
+	case ev < 2*s.n:
+		return fmt.Sprintf("toggle server %d healthy/answering 500", ev-s.n)
+	}
+	return fmt.Sprintf("reload configuration with server %d's backup flag flipped", ev-2*s.n)
 }
 
 func (s *c19Sys) closeAll() {
@@ -105,25 +128,47 @@ func (s *c19Sys) Reset() {
 	s.e = &env.Env{Cfg: cfg}
 	s.e.RebindServersOnly()
 	procEnv = nil
+	s.cfg = cfg
+	s.mask = s.backup
 }
 
 func (s *c19Sys) Key() string {
 	k := ""
 	for _, o := range s.origins {
-		if o.up {
+		switch {
+		case o.up && o.sick:
+			k += "s"
+		case o.up:
 			k += "U"
-		} else {
+		default:
 			k += "d"
 		}
 	}
-	return k
+	return fmt.Sprintf("%s/mask%d", k, s.mask)
 }
 
 func (s *c19Sys) Apply(ev int) (string, string, string) {
-	o := s.origins[ev]
-	if o.up {
+	if ev >= 2*s.n {
+		// reload: same servers, one backup flag flipped, applied with main.update()'s call sequence
+		i := ev - 2*s.n
+		s.mask ^= 1 << uint(i)
+		srv := s.cfg.Upstreams[0].Servers
+		ns := make([]config.UpstreamServerConfig, len(srv))
+		copy(ns, srv)
+		ns[i].Backup = s.mask&(1<<uint(i)) != 0
+		s.cfg.Upstreams[0].Servers = ns
+		if err := env.Apply(s.cfg); err != nil {
+			return "", "apply-error", err.Error()
+		}
+		s.e.RebindServersOnly()
+	} else if ev >= s.n {
+		o := s.origins[ev-s.n]
+		o.sick = !o.sick
+	} else if o := s.origins[ev]; o.up {
 		o.stop()
+		o.sick = false
 	} else {
+		o := s.origins[ev]
 		if err := o.start(); err != nil {
 			// the port may linger briefly; retry shortly (harness concern only)
 			for try := 0; try < 20 && err != nil; try++ {
@@ -140,10 +185,10 @@ func (s *c19Sys) Apply(ev int) (string, string, string) {
 	// eligible servers
 	var prim, back []int
 	for i, og := range s.origins {
-		if !og.up {
+		if !og.up || og.sick {
 			continue
 		}
-		if s.backup&(1<<uint(i)) != 0 {
+		if s.mask&(1<<uint(i)) != 0 {
 			back = append(back, i)
 		} else {
 			prim = append(prim, i)
@@ -168,6 +213,11 @@ func (s *c19Sys) Apply(ev int) (string, string, string) {
 			}
 			continue
 		}
+		if strings.HasPrefix(string(res.Body), "sick-") {
+			var idx int
+			fmt.Sscanf(string(res.Body), "sick-%d", &idx)
+			return s.Key(), "traffic-to-unhealthy-server", fmt.Sprintf("%s state %s: request %d went to server %d, which fails its HTTP health check (%s)", s.label, s.Key(), r, idx, s.ping)
+		}
 		if res.Status != 200 || !strings.HasPrefix(string(res.Body), "origin-") {
 			return s.Key(), fmt.Sprintf("request-failed-%d", res.Status), fmt.Sprintf("%s state %s (eligible %v): request %d answered %d %q", s.label, s.Key(), elig, r, res.Status, trunc(res.Body))
 		}
@@ -182,7 +232,7 @@ func (s *c19Sys) Apply(ev int) (string, string, string) {
 		}
 		if !ok {
 			sig := "traffic-to-unhealthy-server"
-			if s.origins[idx].up {
+			if s.origins[idx].up && !s.origins[idx].sick {
 				sig = "backup-used-while-primary-healthy"
 			}
 			return s.Key(), sig, fmt.Sprintf("%s state %s: request went to server %d, eligible %v (primaries up %v, backups up %v)", s.label, s.Key(), idx, elig, prim, back)
@@ -209,33 +259,40 @@ func init() {
 	Register("C19", func(c *Ctx) {
 		c.Out.Rule = "BFS over up/down toggle sequences (depth 4, states = liveness vectors) of 1..3 (quick) / 1..4 (thorough; n=4 with 3 masks in quick) real loopback origins x every primary/backup mask x policies {roundRobin, first, random, leastconn} x health mode {TCP, HTTP ping}; after every toggle an explicit health check (settle) and 3n sequential requests through pike's real proxy: only healthy servers, backups only when no primary is healthy, round-robin counts differ by <=1, all down => 5xx, recovery resumes traffic"
 		c.Out.Assume = []string{"instances live well below the 5 s period of the library's own health-check ticker", "loopback TCP"}
-		maxN := 3
-		if c.Thorough() {
-			maxN = 4
-		}
 		var idx int64
+		c.NoMergeCap = 400
 		for n := 1; n <= 4; n++ {
 			for mask := 0; mask < 1<<uint(n); mask++ {
-				if n > maxN && !(mask == 0 || mask == 8 || mask == 12) {
-					continue
-				}
 				for _, pol := range []string{"roundRobin", "first", "random", "leastconn"} {
-					for _, ping := range []string{"", "/ping"} {
-						if n > maxN && (pol == "random" || pol == "leastconn" || ping != "") {
-							continue
+					for _, ping := range []string{"", "/ping", "/"} {
+						depth := 4
+						if !c.Thorough() {
+							switch {
+							case n == 4:
+								// partly in quick: enough servers for per-check probe budgets to matter
+								if !(mask == 0 || mask == 8 || mask == 12) || pol == "random" || pol == "leastconn" || ping != "" {
+									continue
+								}
+							case ping != "":
+								// HTTP health checks: the additional failure mode "listening but answering 500"
+								depth = 3
+								if pol == "random" || pol == "leastconn" || (n == 3 && !(mask == 0 || mask == 4)) {
+									continue
+								}
+							}
 						}
 						idx++
 						if !c.Mine(idx) {
 							continue
 						}
-						name := fmt.Sprintf("n%d-backupmask%d-%s-ping%v", n, mask, pol, ping != "")
-						sys := &c19Sys{n: n, backup: mask, policy: pol, ping: ping, label: name, shard: c.Shard}
+						name := fmt.Sprintf("n%d-backupmask%d-%s-ping%q", n, mask, pol, ping)
+						sys := &c19Sys{n: n, backup: mask, policy: pol, ping: ping, label: name, shard: c.Shard, reloads: n == 2 && pol == "roundRobin" && ping == ""}
 						saveS, saveN := c.Shard, c.NShards
 						c.Shard, c.NShards = 0, 1 // the configuration, not the BFS, is sharded
-						c.runBFS(name, sys, 4, nil)
+						c.runBFS(name, sys, depth, nil)
 						c.Shard, c.NShards = saveS, saveN
 						sys.closeAll()
-						if c.TimeUp() {
+						if !c.Deadline.IsZero() && time.Now().After(c.Deadline) {
 							return
 						}
 					}
